@@ -18,8 +18,8 @@ g, m = ctx.eval_both(cases, "try")
 print("notes", ctx.notes)
 mism = [i for i in range(len(cases)) if g[i] != m[i]]
 bad = [i for i in mism if g[i] and "6261642d63617365" in g[i]]
-stuck = [i for i in mism if g[i] and "737475636b" in g[i]]
-print("mismatches", len(mism), "bad-case", len(bad), "stuck", len(stuck))
+stuck = [i for i in mism if g[i] and "68616e67" in g[i]]
+print("mismatches", len(mism), "bad-case", len(bad), "hang", len(stuck))
 nt = sum(1 for i, c in enumerate(cases) if g[i] and PROP.nontrivial(c, g[i]))
 print("nontrivial", nt)
 for i in (bad[:2] + stuck[:2] + [i for i in mism if i not in bad and i not in stuck][:4]):
